@@ -35,7 +35,7 @@ from .c19 import SymStr, sv, re_stub, WORD
 PROP = "C11"
 Z3_TIMEOUT_MS = 3000
 CVC5_TIMEOUT_MS = 25000
-FILTER = r"#decl|#emit|#loop|add_op#|#flags|#getter|#names|fbody#|bundle_usage#|declaration-shape|#well-sorted|#total|#ends-with-return|#order|#reset\.(holder|transformer)"
+FILTER = r"#decl|#emit|#loop|add_op#|#flags|#getter|#names|fbody#|bundle_usage#|declaration-shape|#well-sorted|#total|#ends-with-return|#order|#reset\.(holder|transformer)|dead-arm-side-effect|live-arm-side-effect"
 
 MUTANTS = [
     {"name": "add_op: name suffix uses a constant", "file": "rzilcompiler/Transformer/RZILTransformer.py",
@@ -535,6 +535,9 @@ def gen_shared(loader, check, what, replay_on=True):
         from . import c14
         c14.gen_reset(loader, check, replay_on)
         c14.gen_entry_points(loader, check, replay_on)
+        # folding away an arm of ?: must not leave a reference to a sequence that is no longer declared (nor drop the live arm's)
+        from . import c06
+        c06.gen_selected(loader, check, replay_on)
 
 
 def gen_task(loader, check, what, replay_on=True):
